@@ -86,6 +86,7 @@ package throttle
 //@   ensures [C05,C06] result.minRecordingLength == minSeconds * camera.FPS()
 //@   ensures [C05] ratelimit.bucketRate(result.bucket) == real(minSeconds * camera.FPS()) / time.dsecs(config.MinRefill)
 //@   ensures [C06] !isnil(listener) ==> result.listener == listener
+//@   ensures !result.open && result.next == 0
 //@   ensures [C05] ncalls("NewBucketWithRateAndClock") == 1 && callarg("NewBucketWithRateAndClock", 1, 2) == clock
 
 //@ func NewThrottledRecorder(baseRecorder, config, minSeconds, eventListener, camera)
@@ -97,3 +98,4 @@ package throttle
 //@   ensures [C05,C06] result.minRecordingLength == minSeconds * camera.FPS()
 //@   ensures [C05] ratelimit.bucketRate(result.bucket) == real(minSeconds * camera.FPS()) / time.dsecs(config.MinRefill)
 //@   ensures [C06] !isnil(eventListener) ==> result.listener == eventListener
+//@   ensures !result.open && result.next == 0
